@@ -64,7 +64,7 @@ func (e *enumerator) longLengths() []int {
 	c := defs.InputLogMaxMessageBytes
 	lens := []int{101, 1023, 1024, 1025, c - 3, c - 2, c - 1, c, c + 1, 2*c + 5, 65537, 70001}
 	if e.ctx.Thorough() {
-		lens = append(lens, 127, 128, 129, 255, 256, 257, 511, 512, 513, 2047, 2048, 2049, 8191, 8192, 8193, 32767, 32768, 32769, 65535, 65536, 1<<20 - 1, 1 << 20, 1<<20 + 1)
+		lens = append(lens, 127, 128, 129, 255, 256, 257, 511, 512, 513, 2047, 2048, 2049, 8191, 8192, 8193, 32767, 32768, 32769, 65535, 65536, 1<<20-1, 1<<20, 1<<20+1)
 	}
 	return sortedUnique(lens)
 }
@@ -186,15 +186,17 @@ func (e *enumerator) longValues() {
 		one(&Step{K: KExtract, Key: "msg", Pattern: `(?P<tag>.)(?P<aux>.)$`}),
 	}, func([]*Step) []*Rec { return msgRecs(replTexts) })
 
-	// mapValue: keys longer than 1024 bytes that differ in the last byte only
-	keyA, keyX := xs(1024)+"a", xs(1025)
+	// mapValue: keys of 1000 bytes that differ in the last byte only (YAML itself limits a plain mapping key to 1024
+	// characters, so longer keys cannot be configured), values around and far beyond them
+	mapA, mapX := xs(999)+"a", xs(1000)
 	var mapVals []*Rec
-	for _, l := range []string{keyA, keyX, xs(1024), xs(1024) + "b", xs(1024) + "A", keyA + "a", xs(capB) + "a"} {
+	for _, l := range []string{mapA, mapX, xs(999), xs(999) + "b", xs(999) + "A", mapA + "a", xs(1024) + "a", xs(capB) + "a"} {
 		mapVals = append(mapVals, rec("m", "T", "X", l))
 	}
 	e.leafGroup("long/mapValue", [][]*Step{
-		one(&Step{K: KMap, Key: "lvl", Mapping: [][2]string{{keyA, "LONG-A"}, {keyX, "LONG-X"}}, Default: sp("DEF")}),
+		one(&Step{K: KMap, Key: "lvl", Mapping: [][2]string{{mapA, "LONG-A"}, {mapX, "LONG-X"}}, Default: sp("DEF")}),
 	}, func([]*Step) []*Rec { return mapVals })
+	keyA, keyX := xs(1024)+"a", xs(1025)
 
 	// match operators: the deciding bytes lie at the far end of the value
 	var conds []Cond
@@ -223,9 +225,7 @@ func (e *enumerator) longValues() {
 			one(&Step{K: KDrop, M: Match{c}, Pct: 100, Label: "matched"}),
 		)
 	}
-	e.rekey = globRekey
 	e.leafGroup("long/match", mconfigs, func([]*Step) []*Rec { return matchVals })
-	e.rekey = nil
 }
 
 // ---------------------------------------------------------------------------------------------------------------------
@@ -346,9 +346,7 @@ func (e *enumerator) byteSweeps() {
 	for _, c := range []Cond{{"lvl", "glob", "ab"}, {"lvl", "glob", "a*b"}, {"lvl", "glob", "[a]b"}, {"lvl", "regex", "^ab$"}, {"lvl", "regex", "ab"}} {
 		pcfgs = append(pcfgs, one(&Step{K: KIf, M: Match{c}, Then: one(hit())}))
 	}
-	e.rekey = globRekey
 	e.leafGroup("bytes/match-pattern-edge", pcfgs, func([]*Step) []*Rec { return nearASCII })
-	e.rekey = nil
 }
 
 // ---------------------------------------------------------------------------------------------------------------------
@@ -409,7 +407,7 @@ func (e *enumerator) histories() {
 		if ctx.Stop() {
 			return
 		}
-		scope := "history:" + a.K.String()
+		scope := "history:" + kindName(a)
 		emitHist("history/"+compactSteps([]*Step{a}), scope, []*Step{a})
 		under := []*Step{{K: KIf, M: condA, Then: one(a)}}
 		emitHist("history/"+compactSteps(under), scope, under)
@@ -420,9 +418,17 @@ func (e *enumerator) histories() {
 				return
 			}
 			prog := []*Step{a, b}
-			emitHist("history/"+compactSteps(prog), "history:"+a.K.String()+"+"+b.K.String(), prog)
+			emitHist("history/"+compactSteps(prog), "history:"+kindName(a)+"+"+kindName(b), prog)
 		}
 	}
+}
+
+// kindName names a leaf in key scopes; extractions into their own source field are kept apart (see Assumptions).
+func kindName(s *Step) string {
+	if (s.K == KHead || s.K == KTail) && s.Key == s.Dest {
+		return s.K.String() + "[key=destKey]"
+	}
+	return s.K.String()
 }
 
 type histInst struct {
